@@ -29,6 +29,7 @@ class _State:
     n_mut = 0
     trace = None
     crash_at = None      # index (1-based) of mutating op before which to die
+    interrupt = None     # (k, "before"|"after"): raise KeyboardInterrupt around mutating op k (SIGINT)
     faults = ()          # list of dicts {k:int|None, op:str|None, path:str|None, errno:int, persistent:bool}
     budget = 200000
     trace_fd = None
@@ -111,6 +112,10 @@ def _op(name, mut, orig, paths, a, kw):
     if mut and S.crash_at is not None and S.n_mut == S.crash_at:
         S.trace.append([S.n_all, S.n_mut, name, paths, "CRASH"])
         _die(137)
+    if mut and S.interrupt is not None and S.interrupt[0] == S.n_mut and S.interrupt[1] == "before":
+        S.trace.append([S.n_all, S.n_mut, name, paths, "SIGINT before"])
+        S.interrupt = None
+        raise KeyboardInterrupt()
     if S.gate is not None:
         _gate(name, paths)
     for f in S.faults:
@@ -119,7 +124,13 @@ def _op(name, mut, orig, paths, a, kw):
             hit = True
             if f.get("persistent"):
                 f["op"], f["path"], f["k"] = name, paths[0] if paths else None, None
-        elif f.get("k") is None and f.get("op") == name and \
+                if f.get("scope") == "dir" and isinstance(f["path"], str):
+                    # from now on the same operation fails on every path of that directory
+                    f["dir"] = f["path"].rsplit("/", 1)[0]
+        elif f.get("k") is None and f.get("op") == name and f.get("dir") is not None and \
+                paths and isinstance(paths[0], str) and paths[0].rsplit("/", 1)[0] == f["dir"]:
+            hit = True
+        elif f.get("k") is None and f.get("op") == name and f.get("dir") is None and \
                 (f.get("path") is None or (paths and f["path"] == paths[0])):
             hit = True
         if hit:
@@ -140,6 +151,10 @@ def _op(name, mut, orig, paths, a, kw):
         raise
     if mut or S.full_trace:
         S.trace.append([S.n_all, S.n_mut if mut else 0, name, paths, "ok"])
+    if mut and S.interrupt is not None and S.interrupt[0] == S.n_mut and S.interrupt[1] == "after":
+        S.trace.append([S.n_all, S.n_mut, name, paths, "SIGINT after"])
+        S.interrupt = None
+        raise KeyboardInterrupt()
     return r
 
 
@@ -281,6 +296,7 @@ def arm(plan=None, trace_fd=None):
     S.n_all = S.n_mut = 0
     S.trace = []
     S.crash_at = plan.get("crash_at")
+    S.interrupt = tuple(plan["interrupt"]) if plan.get("interrupt") else None
     S.faults = [dict(f) for f in plan.get("faults", ())]
     S.budget = plan.get("budget", 200000)
     S.trace_fd = trace_fd
